@@ -45,13 +45,13 @@ type opRec struct {
 }
 
 type wframe struct {
-	Line            int
-	Write           int
-	Kind            string
-	Sid, Mid        int
-	Done, Ctl       bool
-	Tag             string
-	Garbage         bool
+	Line      int
+	Write     int
+	Kind      string
+	Sid, Mid  int
+	Done, Ctl bool
+	Tag       string
+	Garbage   bool
 }
 
 func parseFrame(s string, line, write int) wframe {
